@@ -793,7 +793,9 @@ ParamAltsAll == {ParamsA, ParamsB, ParamsC, ParamsD, ParamsBad, ParamsOff, Param
    deputy (nobody can then open a transfer of that asset) *)
 ParamsSwapTL == ("htltone" :> AP(3, TRUE, 3, 2, 1, 3, 0)) @@ ("htlttwo" :> AP(6, FALSE, 0, 0, 1, 3, 1))
 ParamsDepMod == ("htltone" :> APx(4, TRUE, MOD, 0, 1, 3, 1, 2)) @@ ("htlttwo" :> [AP(5, TRUE, 2, 3, 1, 3, 1) EXCEPT !.deputy = "blk"])
-ParamAltsProbe == ParamAltsAll \cup {NoParams, ParamsSwapTL, ParamsDepMod, ParamsOne}
+(* time-limited with a time-based limit of zero: valid; the inflow of that asset is paused *)
+ParamsPause == ("htltone" :> AP(4, TRUE, 2, 0, 1, 3, 0)) @@ ("htlttwo" :> AP(5, TRUE, 2, 3, 1, 3, 1))
+ParamAltsProbe == ParamAltsAll \cup {NoParams, ParamsSwapTL, ParamsDepMod, ParamsOne, ParamsPause}
 ParamAltsFew == {ParamsB, ParamsC}
 ParamAltsOne == {("htltone" :> AP(2, FALSE, 0, 0, 1, 3, 0)), NoParams}
 ParamAltsTwo == {ParamsTwo, ("htlttwo" :> AP(3, TRUE, 3, 2, 1, 3, 1)), <<>>}
